@@ -104,3 +104,20 @@ def case_map(vm, c, lower, ascii_only):
             m = e['lower' if lower else 'upper']
             if m != [cp] and vm.branch(c == cp): return list(m)
     return [c]
+
+
+def table_chars(src_root):
+    """R plus every non-ASCII character that occurs in the repository's own test programs (so that the program-level
+    translator validation can run them); the symbolic character domain stays ASCII ∪ R"""
+    import glob, os
+    extra = set()
+    for p in glob.glob(os.path.join(src_root, 'tests', '*.rs')) + glob.glob(os.path.join(src_root, 'src', '**', 'tests.rs'), recursive=True):
+        try:
+            for ch in open(p, encoding='utf-8').read():
+                if ord(ch) > 127: extra.add(ord(ch))
+        except OSError: pass
+    more = set()
+    for cp in extra:
+        c = chr(cp)
+        for d in c.lower() + c.upper(): more.add(ord(d))
+    return sorted(set(R) | extra | {x for x in more if x > 127})
